@@ -1,79 +1,167 @@
-"""Random structured Borno programs that terminate (every loop has a dedicated bounded
-counter, every recursion a depth parameter) and print a trace of what they do."""
+"""Random structured Borno programs: type-aware (so that most run without a fault),
+terminating (every loop has a dedicated bounded counter, every recursion a depth
+parameter that only the generator touches), printing a trace of what they do."""
 import lang
 from lang import *  # noqa
 
-NAMES = ['a', 'b', 'x', 'গ']          # deliberately colliding pool
+NAMES = ['a', 'b', 'x', 'গ', 'মান']          # deliberately colliding pool
 FN_NAMES = ['f', 'g', 'h']
+TYPES = ['num', 'num', 'num', 'str', 'bool', 'arr', 'obj']
+KEYS_POOL = ['k', 'v', 'নাম', 'z']
 
 
 class Gen:
-    def __init__(self, rng, err_rate=0.04, use_input=False, use_objects=True):
+    def __init__(self, rng, fault_rate=0.08, use_input=False):
         self.rng = rng
         self.n = 0
-        self.err_rate = err_rate
+        self.fault = rng.random() < fault_rate   # this program gets (at most) one planted fault
         self.use_input = use_input
-        self.use_objects = use_objects
-        self.lines = []
+        self.inputs = 0
 
     def fresh(self, p):
         self.n += 1
         return '%s%d' % (p, self.n)
 
-    # ---- expressions
-    def atom(self, scope):
-        r = self.rng
-        k = r.random()
-        vis = [v for s in scope for v in s['vars']]
-        if vis and k < 0.45:
-            return r.choice(vis)
-        if k < 0.5 and r.random() < self.err_rate * 5:
-            return r.choice(NAMES)
-        if k < 0.75:
-            return r.choice(['0', '1', '2', '3', '7', '10', '0.5', '১২', '100', '1000000', '2.25'])
-        if k < 0.85:
-            return r.choice(['"s"', '"ab"', '""', '"৫"', '"x y"'])
-        if k < 0.9:
-            return r.choice([TRUE, FALSE, NIL])
-        if k < 0.95:
-            return '[%s]' % ', '.join(self.atom(scope) for _ in range(r.randint(0, 3)))
-        if self.use_objects:
-            keys = r.sample(['k', 'v', 'নাম', 'z'], r.randint(0, 3))
-            return '{%s}' % ', '.join('%s: %s' % (kk, self.atom(scope)) for kk in keys)
-        return '4'
+    def vars_of(self, scope, ty):
+        seen = set()
+        out = []
+        for s in reversed(scope):
+            for (x, t, extra) in reversed(s['vars']):
+                if x in seen:
+                    continue
+                seen.add(x)
+                if t == ty and not extra.get('hidden'):
+                    out.append((x, extra))
+        return out
 
-    def expr(self, scope, depth=2):
+    def take_fault(self):
+        if self.fault and self.rng.random() < 0.15:
+            self.fault = False
+            return True
+        return False
+
+    # ---- expressions by type
+    def num(self, scope, d=2):
         r = self.rng
-        if depth <= 0 or r.random() < 0.3:
-            return self.atom(scope)
+        if self.take_fault():
+            return r.choice(['(1 / 0)', 'নাই', '(%s - 1)' % NIL, '(5 %% 0)', '%s(1)' % LEN, '[1][3]', '(1)(2)', '({k: 1}).zz', '(1.5 | 1)', '"a" * 2'])
+        vs = self.vars_of(scope, 'num')
         k = r.random()
-        if k < 0.5:
-            op = r.choice(['+', '-', '*', '+', '<', '<=', '==', '!=', '>', '%', '/', '&', '|', '**'])
-            return '(%s %s %s)' % (self.expr(scope, depth - 1), op, self.expr(scope, depth - 1))
+        if d <= 0 or k < 0.3:
+            if vs and r.random() < 0.6:
+                return r.choice(vs)[0]
+            return r.choice(['0', '1', '2', '3', '7', '10', '0.5', '১২', '100', '1000000', '2.25', '৩.৫'])
+        if k < 0.55:
+            return '(%s %s %s)' % (self.num(scope, d - 1), r.choice(['+', '-', '*', '+', '-']), self.num(scope, d - 1))
         if k < 0.6:
-            return '(%s %s %s)' % (self.expr(scope, depth - 1), r.choice(['&&', '||', AND_W, OR_W]), self.expr(scope, depth - 1))
-        if k < 0.67:
-            return '%s%s' % (r.choice(['-', '!', '~']), self.expr(scope, depth - 1))
-        fns = [f for s in scope for f in s['funs']]
-        if fns and k < 0.85:
-            name, ar, rec = r.choice(fns)
-            args = [self.expr(scope, depth - 1) for _ in range(ar)]
-            if rec:
-                args[0] = str(r.randint(0, 3))
-            if r.random() < self.err_rate:
-                args = args[:-1] if args else args + ['1']
-            return '%s(%s)' % (name, ', '.join(args))
-        if k < 0.93:
-            nat = r.choice([(LEN, 1), (ABS, 1), (ROUND, 1), (MIN, 2), (MAX, 2), (SQRT, 1), (APPEND, 2), (POW, 2)])
-            args = [self.expr(scope, depth - 1) for _ in range(nat[1])]
-            if nat[0] in (LEN, APPEND):
-                args[0] = '[%s]' % ', '.join(self.atom(scope) for _ in range(r.randint(0, 3)))
-            return '%s(%s)' % (nat[0], ', '.join(args))
-        if k < 0.97:
-            return '%s[%s]' % (self.atom(scope), r.choice(['0', '1', '2', self.atom(scope)]))
-        if self.use_input and r.random() < 0.5:
+            return '(%s %s %s)' % (self.num(scope, d - 1), r.choice(['%', '/']), r.choice(['2', '3', '7', '0.5']))
+        if k < 0.65:
+            return '(%s %s %s)' % (self.num(scope, 0), r.choice(['&', '|', '^', '<<', '>>']), r.choice(['1', '2', '3', '5']))
+        if k < 0.7:
+            return '%s%s' % (r.choice(['-', '-', '~']), self.num(scope, 0))
+        if k < 0.8:
+            fns = [f for s in scope for f in s['funs']]
+            if fns:
+                name, ar, rec = r.choice(fns)
+                args = [self.num(scope, d - 1) for _ in range(ar)]
+                if rec:
+                    args[0] = str(r.randint(0, 3))
+                return '%s(%s)' % (name, ', '.join(args))
+        if k < 0.88:
+            nat = r.choice([ABS, ROUND, SQRT, MIN, MAX, POW])
+            if nat in (MIN, MAX):
+                return '%s(%s)' % (nat, ', '.join(self.num(scope, d - 1) for _ in range(r.randint(1, 3))))
+            if nat == POW:
+                return '%s(%s, %s)' % (nat, self.num(scope, 0), r.choice(['2', '3', '0.5', '0']))
+            return '%s(%s)' % (nat, self.num(scope, d - 1))
+        if k < 0.94:
+            return '%s(%s)' % (LEN, self.arr(scope, d - 1)[0])
+        arrs = [v for v in self.vars_of(scope, 'arr') if v[1].get('len', 0) >= 1]
+        if arrs:
+            x, ex = r.choice(arrs)
+            return '%s[%d]' % (x, r.randrange(ex['len']))
+        objs = [v for v in self.vars_of(scope, 'obj') if v[1].get('keys')]
+        if objs:
+            x, ex = r.choice(objs)
+            return '%s.%s' % (x, r.choice(ex['keys']))
+        return '(%s)' % self.num(scope, d - 1)
+
+    def str_(self, scope, d=2):
+        r = self.rng
+        vs = self.vars_of(scope, 'str')
+        k = r.random()
+        if d <= 0 or k < 0.4:
+            if vs and r.random() < 0.5:
+                return r.choice(vs)[0]
+            return r.choice(['"s"', '"ab"', '""', '"৫"', '"x y"', '"কথা"'])
+        if k < 0.7:
+            return '(%s + %s)' % (self.str_(scope, d - 1), self.str_(scope, d - 1))
+        if k < 0.85:
+            return '(%s + %s)' % (self.str_(scope, d - 1), self.num(scope, d - 1))
+        if self.use_input and self.inputs < 3 and r.random() < 0.5:
+            self.inputs += 1
             return '%s()' % INPUT
-        return '(%s)' % self.expr(scope, depth - 1)
+        return '(%s + %s)' % (self.num(scope, d - 1), self.str_(scope, d - 1))
+
+    def bool_(self, scope, d=2):
+        r = self.rng
+        k = r.random()
+        if d <= 0 or k < 0.2:
+            vs = self.vars_of(scope, 'bool')
+            if vs and r.random() < 0.5:
+                return r.choice(vs)[0]
+            return r.choice([TRUE, FALSE])
+        if k < 0.6:
+            return '(%s %s %s)' % (self.num(scope, d - 1), r.choice(['<', '<=', '>', '>=', '==', '!=']), self.num(scope, d - 1))
+        if k < 0.7:
+            return '(%s %s %s)' % (self.str_(scope, d - 1), r.choice(['==', '!=']), self.str_(scope, d - 1))
+        if k < 0.8:
+            return '!%s' % self.any(scope, d - 1)
+        return '(%s %s %s)' % (self.bool_(scope, d - 1), r.choice(['&&', '||', AND_W, OR_W]), self.bool_(scope, d - 1))
+
+    def arr(self, scope, d=1):
+        """returns (expression, length)"""
+        r = self.rng
+        vs = self.vars_of(scope, 'arr')
+        k = r.random()
+        if vs and k < 0.4:
+            x, ex = r.choice(vs)
+            return x, ex.get('len', 0)
+        if vs and k < 0.55 and d > 0:
+            x, ex = r.choice(vs)
+            extra = r.randint(1, 2)
+            return '%s(%s, %s)' % (APPEND, x, ', '.join(self.num(scope, 0) for _ in range(extra))), ex.get('len', 0) + extra
+        if vs and k < 0.65 and d > 0:
+            cand = [v for v in vs if v[1].get('len', 0) >= 1]
+            if cand:
+                x, ex = r.choice(cand)
+                return '%s(%s, %d)' % (REMOVE, x, r.randrange(ex['len'])), ex['len'] - 1
+        n = r.randint(0, 3)
+        return '[%s]' % ', '.join(self.num(scope, 0) for _ in range(n)), n
+
+    def obj(self, scope, d=1):
+        r = self.rng
+        keys = r.sample(KEYS_POOL, r.randint(0, 3))
+        return '{%s}' % ', '.join('%s: %s' % (kk, self.num(scope, 0)) for kk in keys), keys
+
+    def any(self, scope, d=1):
+        t = self.rng.choice(['num', 'num', 'str', 'bool', 'arr', 'obj', 'nil'])
+        return self.typed(scope, t, d)[0]
+
+    def typed(self, scope, t, d=2):
+        if t == 'num':
+            return self.num(scope, d), {}
+        if t == 'str':
+            return self.str_(scope, d), {}
+        if t == 'bool':
+            return self.bool_(scope, d), {}
+        if t == 'arr':
+            e, n = self.arr(scope, 1)
+            return e, {'len': n}
+        if t == 'obj':
+            e, ks = self.obj(scope)
+            return e, {'keys': ks}
+        return NIL, {}
 
     # ---- statements
     def block(self, scope, depth, n, in_loop, in_fn):
@@ -89,53 +177,72 @@ class Gen:
         cur = scope[-1]
         ind = '  ' * (len(scope) - 1)
         if k < 0.2:
-            cand = [x for x in NAMES if x not in cur['vars']]
-            if not cand or r.random() < self.err_rate:
-                cand = NAMES
+            here = [v[0] for v in cur['vars']]
+            cand = [x for x in NAMES if x not in here]
+            if not cand:
+                return [ind + '%s %s;' % (PRINT, self.any(scope))]
             x = r.choice(cand)
-            if x not in cur['vars']:
-                cur['vars'].append(x)
-            if r.random() < 0.15:
-                return [ind + '%s %s;' % (VAR, x)]
-            return [ind + '%s %s = %s;' % (VAR, x, self.expr(scope))]
-        if k < 0.4:
-            vis = [v for s in scope for v in s['vars']]
-            x = r.choice(vis) if vis and r.random() > self.err_rate else r.choice(NAMES)
-            return [ind + '%s = %s;' % (x, self.expr(scope))]
-        if k < 0.62:
-            return [ind + '%s %s;' % (PRINT, self.expr(scope))]
+            t = r.choice(TYPES)
+            e, extra = self.typed(scope, t)
+            cur['vars'].append((x, t, extra))
+            return [ind + '%s %s = %s;' % (VAR, x, e)]
+        if k < 0.38:
+            t = r.choice(['num', 'num', 'str', 'bool', 'arr'])
+            vs = self.vars_of(scope, t)
+            if vs:
+                x, ex = r.choice(vs)
+                if t == 'arr':
+                    if ex.get('len', 0) >= 1 and r.random() < 0.7:
+                        return [ind + '%s[%d] = %s;' % (x, r.randrange(ex['len']), self.num(scope, 1))]
+                    return [ind + '%s %s;' % (PRINT, x)]
+                e, extra = self.typed(scope, t)
+                return [ind + '%s = %s;' % (x, e)]
+            objs = self.vars_of(scope, 'obj')
+            if objs:
+                x, ex = r.choice(objs)
+                kk = r.choice(KEYS_POOL)
+                if kk not in ex['keys']:
+                    ex['keys'].append(kk)
+                return [ind + '%s.%s = %s;' % (x, kk, self.num(scope, 1))]
+            return [ind + '%s %s;' % (PRINT, self.any(scope))]
+        if k < 0.6:
+            return [ind + '%s %s;' % (PRINT, self.any(scope, 2))]
         if depth <= 0:
-            return [ind + '%s %s;' % (PRINT, self.atom(scope))]
+            return [ind + '%s %s;' % (PRINT, self.any(scope, 1))]
         if k < 0.7:
-            out = [ind + '%s (%s) {' % (IF, self.expr(scope))]
+            out = [ind + '%s (%s) {' % (IF, self.bool_(scope) if r.random() < 0.8 else self.any(scope))]
             out += self.block(scope, depth - 1, r.randint(1, 3), in_loop, in_fn)
             if r.random() < 0.5:
                 out += [ind + '} %s {' % ELSE] + self.block(scope, depth - 1, r.randint(1, 2), in_loop, in_fn)
             return out + [ind + '}']
-        if k < 0.76:
+        if k < 0.77:
             c = self.fresh('c')
-            cur['vars'].append(c)
-            out = [ind + '%s %s = 0;' % (VAR, c), ind + '%s (%s < %d) {' % (WHILE, c, r.randint(0, 4)), ind + '  %s = %s + 1;' % (c, c)]
+            cur['vars'].append((c, 'num', {'hidden': True}))
+            out = [ind + '%s %s = 0;' % (VAR, c), ind + '%s (%s < %d) {' % (WHILE, c, r.randint(0, 4)), ind + '  %s = %s + 1;' % (c, c),
+                   ind + '  %s %s;' % (PRINT, c)]
             out += self.block(scope, depth - 1, r.randint(1, 3), True, in_fn)
-            cur['vars'].remove(c)   # do not let later code reassign the counter
             return out + [ind + '}']
-        if k < 0.82:
+        if k < 0.84:
             i = self.fresh('i')
             out = [ind + '%s (%s %s = 0; %s < %d; %s = %s + 1) {' % (FOR, VAR, i, i, r.randint(0, 4), i, i)]
-            inner = scope + [{'vars': [], 'funs': []}]
+            inner = scope + [{'vars': [(i, 'num', {'hidden': True})], 'funs': []}]
             body = self.block(inner, depth - 1, r.randint(1, 3), True, in_fn)
-            out += [ind + '  %s %s;' % (PRINT, i)] + body
+            out += [ind + '  %s %s * 10;' % (PRINT, i)] + body
             return out + [ind + '}']
-        if k < 0.86 and in_loop:
-            return [ind + '%s (%s) { %s; }' % (IF, self.expr(scope, 1), r.choice([BREAK, CONTINUE]))]
-        if k < 0.9 and in_fn:
-            return [ind + '%s (%s) { %s %s; }' % (IF, self.expr(scope, 1), RETURN, self.expr(scope, 1))]
-        if k < 0.96:
+        if k < 0.88 and in_loop:
+            return [ind + '%s (%s) { %s; }' % (IF, self.bool_(scope, 1), r.choice([BREAK, CONTINUE]))]
+        if k < 0.92 and in_fn:
+            return [ind + '%s (%s) { %s %s; }' % (IF, self.bool_(scope, 1), RETURN, self.num(scope, 1))]
+        if k < 0.97:
             name = r.choice(FN_NAMES) if r.random() < 0.7 else self.fresh('fn')
+            if any(f[0] == name for f in cur['funs']):
+                name = self.fresh('fn')      # never re-declare in the same scope (it would rebind earlier callers)
             ar = r.randint(0, 3)
             rec = r.random() < 0.3 and ar >= 1
-            params = ['d'] + ['p%d' % j for j in range(1, ar)] if rec else ['p%d' % j for j in range(ar)]
-            fscope = scope + [{'vars': list(params), 'funs': [(name, ar, rec)]}]
+            params = (['d'] + ['p%d' % j for j in range(1, ar)]) if rec else ['p%d' % j for j in range(ar)]
+            pvars = [(p, 'num', {'hidden': p == 'd'}) for p in params]
+            # inside the body the name denotes the function itself: hide outer functions of that name
+            fscope = [{'vars': sc['vars'], 'funs': [f for f in sc['funs'] if f[0] != name]} for sc in scope] + [{'vars': pvars, 'funs': []}]
             out = [ind + '%s %s(%s) {' % (FUN, name, ', '.join(params))]
             if rec:
                 out += [ind + '  %s (d <= 0) { %s 0; }' % (IF, RETURN)]
@@ -144,14 +251,15 @@ class Gen:
                 body += self.stmt(fscope, depth - 1, False, True)
             out += body
             if rec:
-                out += [ind + '  %s %s(d - 1%s) + 1;' % (RETURN, name, ''.join(', ' + self.atom(fscope) for _ in range(ar - 1)))]
-            elif r.random() < 0.6:
-                out += [ind + '  %s %s;' % (RETURN, self.expr(fscope, 1))]
+                out += [ind + '  %s %s(d - 1%s) + 1;' % (RETURN, name, ''.join(', ' + self.num(fscope, 0) for _ in range(ar - 1)))]
+            elif r.random() < 0.7:
+                out += [ind + '  %s %s;' % (RETURN, self.num(fscope, 1))]
             out += [ind + '}']
+            # the function is callable only after its declaration, from this scope inwards
             cur['funs'] = [f for f in cur['funs'] if f[0] != name] + [(name, ar, rec)]
+            cur['vars'] = [v for v in cur['vars'] if v[0] != name]
             return out
-        out = [ind + '{'] + self.block(scope, depth - 1, r.randint(1, 3), in_loop, in_fn) + [ind + '}']
-        return out
+        return [ind + '{'] + self.block(scope, depth - 1, r.randint(1, 3), in_loop, in_fn) + [ind + '}']
 
     def program(self, n_stmts=12, depth=3):
         scope = [{'vars': [], 'funs': []}]
@@ -162,4 +270,5 @@ class Gen:
 
 
 def random_program(rng, n_stmts=12, depth=3, **kw):
-    return Gen(rng, **kw).program(n_stmts, depth)
+    g = Gen(rng, **kw)
+    return g.program(n_stmts, depth)
